@@ -15,7 +15,7 @@
 (* id.  Injected bytes are 128 + serial.                                     *)
 (*                                                                          *)
 (* Design mutants: NoSort, ActiveBeforeErr, LaterConsoleWins, LaterTTYWins,  *)
-(* NoDrain, NoReport, DrainTwice.                                            *)
+(* NoDrain, NoReport, DrainTwice, Relink.                                    *)
 (***************************************************************************)
 EXTENDS Integers, Sequences, FiniteSets, TLC, Json, CSV, IOUtils, TraceLib
 CONSTANTS MaxDrv, Orders, SayLens,
@@ -27,10 +27,10 @@ B == INSTANCE Bringup
 VARIABLES reg,            \* registered drivers, registration order
           list, idx,      \* sorted list and position of the probe loop
           phase,          \* "boot" | "probing" | "ended"
-          sink, ring, shown, actTTY, actCons, active, attached, tstate,
+          sink, ring, shown, held, actTTY, actCons, active, attached, tstate,
           serial, nprints, slots,
           s, mismatch
-vars == <<reg, list, idx, phase, sink, ring, shown, actTTY, actCons, active, attached, tstate, serial, nprints, slots, s, mismatch>>
+vars == <<reg, list, idx, phase, sink, ring, shown, held, actTTY, actCons, active, attached, tstate, serial, nprints, slots, s, mismatch>>
 
 Kinds == {"tty", "cons", "other"}
 Rec(o, k, p, i, y) == [order |-> o, kind |-> k, probeOk |-> p, initOk |-> i, say |-> y]
@@ -52,7 +52,7 @@ EvDrv == [i \in 1..Len(reg) |-> [id |-> i, order |-> reg[i].order, kind |-> reg[
 
 Init == /\ reg \in Regs(0)
         /\ list = <<>> /\ idx = 0 /\ phase = "boot"
-        /\ sink = 0 /\ ring = <<>> /\ shown = [i \in 1..Len(reg) |-> <<>>]
+        /\ sink = 0 /\ ring = <<>> /\ shown = [i \in 1..Len(reg) |-> <<>>] /\ held = [i \in 1..Len(reg) |-> <<>>]
         /\ actTTY = 0 /\ actCons = 0 /\ active = <<>> /\ attached = [i \in 1..Len(reg) |-> 0] /\ tstate = [i \in 1..Len(reg) |-> 0]
         /\ serial = 0 /\ nprints = 0 /\ slots = <<>>
         /\ s = B!Mon(B!S0, [k |-> "start", drv |-> EvDrv]).s /\ mismatch = <<>>
@@ -65,15 +65,15 @@ Judge(evs) == LET m == MonSeq(s, evs, 1, <<>>) IN s' = m.s /\ mismatch' = FirstF
 
 \* kfmt output path on a state record x = [sink, ring, shown]
 LogW(x, bs) == IF x.sink = 0 THEN [x EXCEPT !.ring = B!Suffix(@ \o bs, RingCap)]
-               ELSE [x EXCEPT !.shown[x.sink] = @ \o bs]
+               ELSE [x EXCEPT !.shown[x.sink] = @ \o bs, !.held[x.sink] = @ \o bs]
 Bytes(k, from) == B!InjSeq(from, k)
 
 \* kfmt.Printf by the environment, before driver idx+1 is probed (or after the last one)
 EnvPrint(k) ==
   /\ phase \in {"boot", "probing"} /\ nprints < (IF Len(reg) <= 2 THEN MaxPrints ELSE MaxPrints3)
   /\ LET bs == Bytes(k, serial)
-         x == LogW([sink |-> sink, ring |-> ring, shown |-> shown], bs)
-     IN /\ ring' = x.ring /\ shown' = x.shown
+         x == LogW([sink |-> sink, ring |-> ring, shown |-> shown, held |-> held], bs)
+     IN /\ ring' = x.ring /\ shown' = x.shown /\ held' = x.held
         /\ Judge(<<[k |-> "print", from |-> serial, len |-> k]>>)
   /\ serial' = serial + k /\ nprints' = nprints + 1
   /\ slots' = Append(slots, [at |-> IF phase = "boot" THEN 0 ELSE idx + 1, len |-> k])
@@ -86,12 +86,13 @@ Sort ==
   /\ phase = "boot"
   /\ list' \in (IF Bug = "NoSort" THEN {[i \in 1..Len(reg) |-> i]} ELSE SortedPerms)
   /\ phase' = "probing" /\ idx' = 0
-  /\ UNCHANGED <<reg, sink, ring, shown, actTTY, actCons, active, attached, tstate, serial, nprints, slots, s, mismatch>>
+  /\ UNCHANGED <<reg, sink, ring, shown, held, actTTY, actCons, active, attached, tstate, serial, nprints, slots, s, mismatch>>
 
 \* linkTTYToConsole on x = [sink, ring, shown, attached, tstate] with the pair (t, c): new x and events
 Link(x, t, c) ==
   LET drained == IF Bug = "NoDrain" THEN <<>> ELSE IF Bug = "DrainTwice" THEN x.ring \o x.ring ELSE x.ring
-  IN [x EXCEPT !.attached[t] = c, !.sink = t, !.shown[t] = @ \o drained, !.ring = <<>>, !.tstate[t] = 1]
+  IN \* tty.VT.AttachTo allocates a blank buffer: whatever the terminal held is gone
+     [x EXCEPT !.attached[t] = c, !.sink = t, !.shown[t] = @ \o drained, !.held[t] = drained, !.ring = <<>>, !.tstate[t] = 1]
 LinkEvs(t, c) == <<[k |-> "attach", tty |-> t, cons |-> c], [k |-> "state", tty |-> t, st |-> 1]>>
 
 \* one iteration of the probe loop
@@ -99,12 +100,12 @@ Step ==
   /\ phase = "probing" /\ idx < Len(list)
   /\ LET d == list[idx + 1]
          r == reg[d]
-         x0 == [sink |-> sink, ring |-> ring, shown |-> shown, attached |-> attached, tstate |-> tstate,
+         x0 == [sink |-> sink, ring |-> ring, shown |-> shown, held |-> held, attached |-> attached, tstate |-> tstate,
                 actTTY |-> actTTY, actCons |-> actCons, active |-> active]
          pe == [k |-> "probe", id |-> d]
      IN IF ~r.probeOk
         THEN /\ Judge(<<pe>>)
-             /\ UNCHANGED <<sink, ring, shown, actTTY, actCons, active, attached, tstate, serial>>
+             /\ UNCHANGED <<sink, ring, shown, held, actTTY, actCons, active, attached, tstate, serial>>
         ELSE LET say == Bytes(r.say, serial)
                  \* the PrefixWriter's sink is fetched before DriverInit
                  body == say \o (IF r.initOk THEN <<2>> ELSE IF Bug = "NoReport" THEN <<>> ELSE <<3>> \o Msg(d))
@@ -121,11 +122,14 @@ Step ==
                         ELSE LET x3 == [x2 EXCEPT !.actCons = d] IN
                              IF x3.actTTY # 0 THEN [x |-> Link(x3, x3.actTTY, d), evs |-> LinkEvs(x3.actTTY, d)] ELSE [x |-> x3, evs |-> <<>>]
                    ELSE IF r.kind = "tty"
-                   THEN IF x2.actTTY # 0 /\ Bug # "LaterTTYWins" THEN [x |-> x2, evs |-> <<>>]
+                   THEN IF x2.actTTY # 0 /\ Bug = "Relink"       \* the active pair is linked again for every further terminal
+                        THEN (IF x2.actCons # 0 THEN [x |-> Link(x2, x2.actTTY, x2.actCons), evs |-> LinkEvs(x2.actTTY, x2.actCons)]
+                              ELSE [x |-> x2, evs |-> <<>>])
+                        ELSE IF x2.actTTY # 0 /\ Bug # "LaterTTYWins" THEN [x |-> x2, evs |-> <<>>]
                         ELSE LET x3 == [x2 EXCEPT !.actTTY = d] IN
                              IF x3.actCons # 0 THEN [x |-> Link(x3, d, x3.actCons), evs |-> LinkEvs(d, x3.actCons)] ELSE [x |-> x3, evs |-> <<>>]
                    ELSE [x |-> x2, evs |-> <<>>]
-             IN /\ sink' = res.x.sink /\ ring' = res.x.ring /\ shown' = res.x.shown /\ attached' = res.x.attached
+             IN /\ sink' = res.x.sink /\ ring' = res.x.ring /\ shown' = res.x.shown /\ held' = res.x.held /\ attached' = res.x.attached
                 /\ tstate' = res.x.tstate /\ actTTY' = res.x.actTTY /\ actCons' = res.x.actCons /\ active' = res.x.active
                 /\ serial' = serial + r.say
                 /\ Judge(<<pe, ie>> \o res.evs)
@@ -137,10 +141,10 @@ End ==
   /\ phase = "probing" /\ idx = Len(list)
   /\ LET pairs(f) == [i \in 1..Len(reg) |-> [id |-> i, v |-> f[i]]]
          e == [k |-> "end", activeTTY |-> actTTY, activeCons |-> actCons, active |-> active, sink |-> sink,
-               shown |-> pairs(shown), ring |-> ring, state |-> pairs(tstate), attached |-> pairs(attached)]
+               shown |-> pairs(shown), held |-> pairs(held), ring |-> ring, state |-> pairs(tstate), attached |-> pairs(attached)]
      IN Judge(<<e>>)
   /\ phase' = "ended"
-  /\ UNCHANGED <<reg, list, idx, sink, ring, shown, actTTY, actCons, active, attached, tstate, serial, nprints, slots>>
+  /\ UNCHANGED <<reg, list, idx, sink, ring, shown, held, actTTY, actCons, active, attached, tstate, serial, nprints, slots>>
 
 Next == /\ mismatch = <<>>
         /\ \/ \E k \in PrintLens : EnvPrint(k)
